@@ -79,12 +79,15 @@ type FnCtx struct {
 	deferAt  map[*ssa.Defer]Term // guard under which the defer was registered
 	dbg      map[string][]*ssa.DebugRef
 	rangeMap map[*ssa.Range]types.Type
+	timerCh  map[ssa.Value]Term // channel value loaded from (*time.Timer).C -> the timer
+	loadedFrom map[ssa.Value]*LV // value -> the location it was loaded from
 
 	// dry-run collection
 	dryHeader *ssa.BasicBlock
 	dryBack   []*State
 	region    map[*ssa.BasicBlock]bool
 
+	cells      map[string]SV // captured variables (closure units): name -> pointer to the variable
 	ghostVars  map[string]GhostVar
 	lastGhost  map[string]SV // ghost results of the most recent contracted call
 	modTargets []modTarget // evaluated modifies clause (unit only)
@@ -125,7 +128,7 @@ func newFnCtx(vc *VC, fn *ssa.Function, parent *FnCtx) *FnCtx {
 		loops: map[*ssa.BasicBlock]*loopInfo{}, loopOrd: map[*ssa.BasicBlock]int{},
 		callOrd: map[ssa.Instruction]int{}, callName: map[ssa.Instruction]string{}, retOrd: map[ssa.Instruction]int{},
 		deferAt: map[*ssa.Defer]Term{}, dbg: map[string][]*ssa.DebugRef{},
-		entryEnv: map[string]SV{}, ghostEnv: map[string]SV{}, ghostVars: map[string]GhostVar{}, rangeMap: map[*ssa.Range]types.Type{}}
+		entryEnv: map[string]SV{}, ghostEnv: map[string]SV{}, ghostVars: map[string]GhostVar{}, cells: map[string]SV{}, timerCh: map[ssa.Value]Term{}, loadedFrom: map[ssa.Value]*LV{}, rangeMap: map[*ssa.Range]types.Type{}}
 	if parent != nil {
 		fc.depth = parent.depth + 1
 	}
